@@ -187,7 +187,7 @@ class Run:
         m2 = re.search(r"Error: Action property (\S+) is violated", out)
         if m2:
             r.violated = m2.group(1)
-        if "Temporal properties were violated" in out:
+        if "Temporal properties were violated" in out or re.search(r"Temporal propert\w+ .*violated", out):
             r.violated = r.violated or "temporal"
         if "Deadlock reached" in out:
             r.violated = r.violated or "deadlock"
